@@ -409,4 +409,204 @@ func buildProbes() {
 	add("~{~2{~a~} ~}", lv(lv(ints(1, 2, 3)...)))
 	add("~{~#{~a~} ~}", lv(lv(ints(1, 2, 3)...)))
 	add("~{~v{~a~} ~}", lv(iv(1), lv(ints(1, 2, 3)...)))
+
+	buildProbes2(add, ints)
+}
+
+// buildProbes2: the deterministic blocks added in round 2.
+func buildProbes2(add func(ctl string, args ...ref.Val), ints func(ns ...int64) []ref.Val) {
+	// 21. sign x modifier x digit count 1..9 x comma interval for ~D ~B ~O ~X
+	// (digit counts in the directive's own base), with and without mincol
+	for _, d := range []struct {
+		ch   string
+		base int64
+	}{{"d", 10}, {"b", 2}, {"o", 8}, {"x", 16}} {
+		for k := int64(1); k <= 9; k++ {
+			hi := addi(pow(d.base, k), -1) // k digits, all the largest
+			lo := pow(d.base, k-1)         // 1 followed by zeros
+			for _, n := range []*big.Int{hi, lo} {
+				for _, sign := range []int{1, -1} {
+					v := new(big.Int).Set(n)
+					if sign < 0 {
+						v.Neg(v)
+					}
+					for _, m := range []string{"", ":", "@", ":@"} {
+						for _, iv := range []string{"", "1", "2", "3", "4"} {
+							add("~"+joinParams("", "", "", iv)+m+d.ch, bv(v))
+							add("~"+joinParams("14", "'0", "'.", iv)+m+d.ch, bv(v))
+						}
+					}
+				}
+			}
+		}
+	}
+
+	// 22. every pairing of outer conditional kind x inner block kind, the inner
+	// block followed by nothing, text or a directive
+	type inner struct {
+		txt  string
+		args []ref.Val
+	}
+	inners := []inner{
+		{"~[a~;b~;c~]", ints(1)},
+		{"~[a~;b~:;c~]", ints(7)},
+		{"~#[a~;b~;c~:;d~]", nil},
+		{"~1[a~;b~;c~]", nil},
+		{"~v[a~;b~;c~]", ints(2)},
+		{"~:[a~;b~]", ints(5)},
+		{"~@[<~a>~]", ints(5)},
+		{"~{<~a>~}", []ref.Val{lv(ints(1, 2)...)}},
+		{"~2{<~a>~}", []ref.Val{lv(ints(1, 2, 3)...)}},
+		{"~:{<~a~a>~}", []ref.Val{lv(lv(ints(1, 2)...), lv(ints(3, 4)...))}},
+		{"~(AB Cd~)", nil},
+		{"~:(ab cd~)", nil},
+		{"~?", []ref.Val{sv("<~a>"), lv(ints(6)...)}},
+	}
+	for _, in := range inners {
+		for _, after := range []string{"", ".", "~a"} {
+			x := in.txt + after
+			xa := append([]ref.Val{}, in.args...)
+			if after == "~a" {
+				xa = append(xa, iv(8))
+			}
+			with := func(pre []ref.Val) []ref.Val { return append(append(append([]ref.Val{}, pre...), xa...), iv(9)) }
+			add("~["+x+"~;k~]|~a", with(ints(0))...)
+			add("~[k~;"+x+"~]|~a", with(ints(1))...)
+			add("~[k~;m~:;"+x+"~]|~a", with(ints(5))...)
+			add("~0["+x+"~;k~]|~a", with(nil)...)
+			add("~1[k~;"+x+"~;m~]|~a", with(nil)...)
+			add("~v[k~;"+x+"~;m~]|~a", with(ints(1))...)
+			add("~:["+x+"~;k~]|~a", with([]ref.Val{nilv()})...)
+			add("~:[k~;"+x+"~]|~a", with(ints(3))...)
+			add("~@[~a"+x+"~]|~a", with(ints(3))...)
+			// ~#[ selects by the number of arguments left: put the inner block
+			// in the clause with that number
+			left := len(xa) + 1
+			cl := make([]string, left+2)
+			for i := range cl {
+				cl[i] = "k"
+			}
+			cl[left] = x
+			add("~#["+strings.Join(cl, "~;")+"~]|~a", append(append([]ref.Val{}, xa...), iv(9))...)
+			add("~#["+strings.Join(cl[:left], "~;")+"~:;"+x+"~]|~a", append(append([]ref.Val{}, xa...), iv(9))...)
+		}
+	}
+
+	// 23. iteration variants x limit x element shapes (nested argument lists), no ~^
+	type body struct {
+		txt string
+		el  func(i int64) []ref.Val // the arguments one pass consumes
+	}
+	bodies := []body{
+		{"<~a>", func(i int64) []ref.Val { return ints(i) }},
+		{"<~a,~s>", func(i int64) []ref.Val { return []ref.Val{iv(i), sv("s")} }},
+		{"~{~a~}.", func(i int64) []ref.Val { return []ref.Val{lv(ints(i, i+1)...)} }},
+		{"~:{~a-~a ~}.", func(i int64) []ref.Val { return []ref.Val{lv(lv(ints(i, 1)...), lv(ints(i, 2)...))} }},
+		{"~@{~a~}.", func(i int64) []ref.Val { return ints(i) }}, // takes the rest of the pass's arguments
+		{"~[x~;y~;z~]", func(i int64) []ref.Val { return ints(i % 3) }},
+		{"~a~:*~s ", func(i int64) []ref.Val { return []ref.Val{sv("q")} }},
+		{"~v,'.d ", func(i int64) []ref.Val { return ints(4, i) }},
+		{"~?", func(i int64) []ref.Val { return []ref.Val{sv("(~a)"), lv(iv(i))} }},
+		{"~(~a~) ", func(i int64) []ref.Val { return []ref.Val{sv("MiX")} }},
+		{"~{~{~a~}~}.", func(i int64) []ref.Val { return []ref.Val{lv(lv(ints(i)...), lv(ints(i, i)...))} }},
+	}
+	for _, b := range bodies {
+		for n := int64(0); n <= 3; n++ {
+			var passes [][]ref.Val
+			var flat []ref.Val
+			var subs []ref.Val
+			for i := int64(0); i < n; i++ {
+				p := b.el(i)
+				passes = append(passes, p)
+				flat = append(flat, p...)
+				subs = append(subs, lv(p...))
+			}
+			for _, mx := range []string{"", "0", "1", "2", "v", "#"} {
+				pre := []ref.Val{}
+				if mx == "v" {
+					pre = ints(2)
+				}
+				tail := iv(99)
+				add("~"+mx+"{"+b.txt+"~}|~a", append(append(append([]ref.Val{}, pre...), lv(flat...)), tail)...)
+				add("~"+mx+":{"+b.txt+"~}|~a", append(append(append([]ref.Val{}, pre...), lv(subs...)), tail)...)
+				if b.txt != "~@{~a~}." {
+					add("~"+mx+"@{"+b.txt+"~}|", append(append([]ref.Val{}, pre...), flat...)...)
+				}
+				add("~"+mx+":@{"+b.txt+"~}|", append(append([]ref.Val{}, pre...), subs...)...)
+			}
+		}
+	}
+
+	// 24. ~* with every modifier and parameter, outside and inside iterations
+	stars := []struct {
+		txt string
+		pre []ref.Val
+	}{{"~*", nil}, {"~0*", nil}, {"~1*", nil}, {"~2*", nil}, {"~:*", nil}, {"~0:*", nil}, {"~1:*", nil}, {"~2:*", nil}, {"~3:*", nil},
+		{"~@*", nil}, {"~0@*", nil}, {"~1@*", nil}, {"~3@*", nil}, {"~4@*", nil}, {"~v*", ints(1)}, {"~v:*", ints(1)}, {"~v@*", ints(2)},
+		{"~v*", []ref.Val{nilv()}}, {"~#*", nil}, {"~#:*", nil}, {"~#@*", nil}}
+	for _, st := range stars {
+		for before := 0; before <= 3; before++ {
+			ctl := strings.Repeat("~a", before) + st.txt + "[~a]"
+			var a []ref.Val
+			for i := 0; i < before; i++ {
+				a = append(a, iv(int64(i)))
+			}
+			a = append(a, st.pre...)
+			for i := 0; len(a) < 5+len(st.pre); i++ {
+				a = append(a, iv(int64(10+i)))
+			}
+			add(ctl, a...)
+			add("~6{"+ctl+"~}|~a", lv(a...), iv(99))
+			add("~6:{"+ctl+"~}|~a", lv(lv(a...), lv(a...)), iv(99))
+			add("~2@{"+ctl+"~}|", a...)
+			add("~a~?~a", iv(70), sv(ctl), lv(a...), iv(71))
+			add("~(~a"+st.txt+"~a~)", sv("Ab"), sv("Cd"), sv("Ef"), sv("Gh"))
+			add("~[x~;~a"+st.txt+"~a~]~a", iv(1), iv(2), iv(3), iv(4), iv(5))
+		}
+	}
+
+	// 25. ~? and ~@? handed control strings that contain blocks, in several contexts
+	subs := []inner{
+		{"<~a>", ints(1)},
+		{"~{<~a>~}", []ref.Val{lv(ints(1, 2)...)}},
+		{"~:{~a=~a ~}", []ref.Val{lv(lv(ints(1, 2)...), lv(ints(3, 4)...))}},
+		{"~2{~a~}~a", []ref.Val{lv(ints(1, 2, 3)...), iv(4)}},
+		{"~[a~;b~:;c~]~a", ints(1, 2)},
+		{"~:[n~;y~] ~@[~a~]", []ref.Val{nilv(), iv(3)}},
+		{"~(AB ~a~)", []ref.Val{sv("CD")}},
+		{"~:(~a ~r~)", []ref.Val{sv("ab"), iv(21)}},
+		{"~#[0~;1~;2~:;many~]~a~a", ints(1, 2)},
+		{"~a~:*~s~*", []ref.Val{sv("x"), iv(0)}},
+		{"~?", []ref.Val{sv("{~a}"), lv(iv(5))}},
+		{"~@?~a", []ref.Val{sv("{~a}"), iv(5), iv(6)}},
+		{"~{~?~}", []ref.Val{lv(sv("(~a)"), lv(iv(1)), sv("[~a~a]"), lv(ints(2, 3)...))}},
+		{"~5,'.d|~10a|~s", []ref.Val{iv(7), sv("pad"), sv("q")}},
+		{"~%~2~~a", ints(1)},
+	}
+	for _, sb := range subs {
+		c := sv(sb.txt)
+		add("~?|~a", c, lv(sb.args...), iv(9))
+		add("~@?|~a", append(append([]ref.Val{c}, sb.args...), iv(9))...)
+		add("~{~?~}|~a", lv(c, lv(sb.args...), c, lv(sb.args...)), iv(9))
+		add("~:{~@?-~}|~a", lv(lv(append([]ref.Val{c}, sb.args...)...), lv(append([]ref.Val{c}, sb.args...)...)), iv(9))
+		add("~(~?~)|~a", c, lv(sb.args...), iv(9))
+		add("~[k~;~@?~]|~a", append(append([]ref.Val{iv(1), c}, sb.args...), iv(9))...)
+		add("~@[~*~?~]|~a", iv(1), c, lv(sb.args...), iv(9))
+		add("~?|~a", sv("~?"), lv(c, lv(sb.args...)), iv(9))
+	}
+
+	// 26. ~A / ~S of every object kind, tied to princ / prin1
+	for _, src := range objectSources {
+		o := ov(src)
+		add("~a|~s", o, o)
+		add("~12a|~12@a|~:a", o, o, o)
+		add("~12s|~12@s|~:@s", o, o, o)
+		add("~,,2,'.a|~3,2s", o, o)
+		add("~{~a ~s ~}", lv(o, o, o, o))
+		add("~a", lv(o, iv(1), sv("s")))
+		add("~s", lv(lv(o), o))
+		add("~(~a~)|~:@(~s~)", o, o)
+		add("~@[~a~]|~:[n~;y~]", o, o)
+		add("~a~:*~s~p", o)
+	}
 }
